@@ -287,7 +287,11 @@ func checkArr(a Arr, st *stats.Collector) error {
 }
 
 func shardInfo() (int, int) {
-	sh, _ := strconv.Atoi(os.Getenv("VERIF_SHARD"))
+	v := os.Getenv("VERIF_SHARD_INDEX")
+	if v == "" {
+		v = os.Getenv("VERIF_SHARD")
+	}
+	sh, _ := strconv.Atoi(v)
 	n, _ := strconv.Atoi(os.Getenv("VERIF_SHARDS"))
 	if n <= 0 {
 		n = 1
